@@ -91,6 +91,22 @@ BAD_CONFIGS = [
                                  'input_positions': {'lower': 1, 'upper': 1}}},
 ]
 
+# anticipated problems with their documented student-facing error class
+ANTICIPATED = [
+    ('1/0', 'CalcZeroDivisionError'), ('[1,0]/0', 'CalcZeroDivisionError'), ('[1,2]/0', 'CalcZeroDivisionError'),
+    ('ln(0)', 'CalcZeroDivisionError'), ('cot(0)', 'CalcZeroDivisionError'), ('log10(0)', 'CalcZeroDivisionError'),
+    ('0^-1', 'CalcZeroDivisionError'), ('[1,0]/[0]', 'CalcZeroDivisionError'), ('1/0+[1,2]', 'CalcZeroDivisionError'),
+    ('[1,2]*(1/0)', 'CalcZeroDivisionError'), ('[3,0,1e-300]/0', 'CalcZeroDivisionError'),
+    ('2^2000', 'CalcOverflowError'), ('exp(1000)', 'CalcOverflowError'), ('sinh(1000)', 'CalcOverflowError'),
+    ('[1e200,1e200]*[1e200,1e200]', 'CalcOverflowError'), ('[1e-200,1e200]*[1e-200,1e200]', 'CalcOverflowError'),
+    ('10^10^10', 'CalcOverflowError'), ('1e308*10', 'CalcOverflowError'), ('[1e308,1]*10', 'CalcOverflowError'),
+    ('[[1e200,0],[0,1e200]]^2', 'CalcOverflowError'), ('arctan2(0,0)', 'FunctionEvalError'),
+    ('(x', 'UnbalancedBrackets'), ('1+', 'UnableToParse'), ('zz+1', 'UndefinedVariable'), ('zz(1)', 'UndefinedFunction'),
+    ('sin(1,2)', 'ArgumentError'),
+    # (shape errors are not listed: whether they are raised or graded depends on options that
+    # an author may have registered class-wide)
+]
+
 EVAL_FORMULAS = ['x+y', 'f(x)*2', 'M*v', 'M^-1*v', 'M^2', 'x^y^2', 'f(f(x))', 'x/0', 'M+x', 'v*v',
                  'sin(x)+cos(y)', 'zz+1', 'f(x,y)', 'x +', '[x,y]*v', 'M*M^-1', '2k+x', 'x%']
 
@@ -231,6 +247,10 @@ class TenantWorld(object):
                 events.append({'op': 'eval', 'formula': P.pick(rng, EVAL_FORMULAS),
                                'subseed': rng.getrandbits(31),
                                'faults': self.gen_eval_faults(rng, rates)})
+                continue
+            if rng.random() < rates.get('anticipated', 0):
+                events.append({'op': 'anticipated', 'case': rng.randrange(len(ANTICIPATED)),
+                               'via': P.pick(rng, ['matrix', 'numerical', 'list']), 'subseed': rng.getrandbits(31)})
                 continue
             if r < rates.get('F9', 0) + rates.get('eval', 0) + 0.04:
                 late = [g for g in order if g not in upfront]
@@ -379,6 +399,8 @@ class TenantWorld(object):
             ev['headroom'] = rng.random()
             ev['faults'].append({'kind': 'F3'})
         elif rng.random() < rates.get('budget', 0):
+            ev['budget'] = True
+        if tp.get('budget_all') and 'headroom' not in ev:
             ev['budget'] = True
         if tp['bp']['cls'] == 'SumGrader' and ev.get('icls') == 'hostile':
             # student-controlled summation limits: always count steps (a hang would otherwise
@@ -815,7 +837,33 @@ class Run(object):
             self.after_event(i)
         elif op == 'eval':
             self.do_eval(i, ev)
+        elif op == 'anticipated':
+            self.do_anticipated(i, ev)
         return None
+
+    def do_anticipated(self, i, ev):
+        """An anticipated problem keeps its specific error class (debug off), whatever ran before."""
+        m = self.lib.mitx
+        text, want = ANTICIPATED[ev['case']]
+        if ev['via'] == 'matrix':
+            g = m.MatrixGrader(answers='[1,2]', max_array_dim=2)
+            inp = text
+        elif ev['via'] == 'numerical':
+            g = m.NumericalGrader(answers='1')
+            inp = text
+        else:
+            g = m.ListGrader(answers=['1', '[1,2]'], subgraders=m.MatrixGrader(max_array_dim=2), ordered=True)
+            inp = ['1', text]
+        seams.seed_lib(ev['subseed'])
+        o = outcome(g, None, inp)
+        self.bump(self.probes, 'anticipated problem submitted')
+        if 'family' in self.judges and not g.config.get('debug'):
+            if not (o['k'] == 'exc' and o['cls'] == want):
+                self.violate('I-family', i, type(g).__name__,
+                             'anticipated problem %r must raise %s, got %s' % (text, want, short(o)),
+                             sig='I-family|anticipated|%s' % want)
+        self.sig.append(['anticipated', ev['via'], o.get('cls', 'ret')])
+        self.log.append([i, 'anticipated', core.jdigest(o)])
 
     def do_eval(self, i, ev):
         calc = __import__('mitxgraders.helpers.calc', fromlist=['x'])
